@@ -435,6 +435,66 @@ func (r *Runner) execMacro(a Action) {
 		r.exec(Action{Op: "heal"}) // the old request can be delivered now
 		w.Advance(20*time.Millisecond, r.sample)
 		r.feat("stale-installsnapshot-from-a-deposed-leader")
+	case "latesnapshot":
+		// a lagging follower is caught up by InstallSnapshot; a copy of that request
+		// lingers in the network. The follower moves on, takes a newer snapshot of
+		// its own, stops and starts again - and before it hears anything else from
+		// the leader the old copy arrives
+		fi := r.resolve(-2)
+		F := r.live(fi)
+		_, L := r.leader()
+		if F == nil || L == nil || F == L {
+			return
+		}
+		r.exec(Action{Op: "isolate", Srv: fi})
+		r.doApply(L, max(2, a.N), 0)
+		w.Advance(40*time.Millisecond, r.sample)
+		r.doSnapshot(L)
+		w.Advance(40*time.Millisecond, r.sample)
+		linger := 200 + 50*a.Arg
+		w.Mu.Lock()
+		r.lateCopyISms, r.lateCopyFrom, r.lateCopyDue = linger, "", 0
+		w.Mu.Unlock()
+		r.exec(Action{Op: "heal"})
+		for k := 0; k < 150; k++ {
+			w.Mu.Lock()
+			seen := r.lateCopyFrom
+			w.Mu.Unlock()
+			if seen != "" {
+				break
+			}
+			w.Advance(time.Millisecond, r.sample)
+		}
+		w.Mu.Lock()
+		from, due := r.lateCopyFrom, r.lateCopyDue
+		r.lateCopyISms = 0
+		w.Mu.Unlock()
+		if from == "" || r.live(fi) != F {
+			return
+		}
+		w.Advance(20*time.Millisecond, r.sample)
+		if _, L2 := r.leader(); L2 != nil {
+			r.doApply(L2, 3+a.N%4, 0)
+		}
+		w.Advance(40*time.Millisecond, r.sample)
+		r.doSnapshot(F)
+		w.Advance(40*time.Millisecond, r.sample)
+		if d := due - 2 - int64(a.Dt%3) - w.Now(); d > 0 {
+			w.Advance(time.Duration(d)*time.Millisecond, r.sample)
+		}
+		if r.live(fi) != F {
+			return
+		}
+		r.exec(Action{Op: "isolate", Srv: fi})
+		F.Crash()
+		r.reapDead()
+		r.restart(fi)
+		if d := due + 3 - w.Now(); d > 0 {
+			w.Advance(time.Duration(d)*time.Millisecond, r.sample)
+		}
+		r.feat("old-installsnapshot-copy-reaches-a-restarted-follower")
+		r.exec(Action{Op: "heal"})
+		w.Advance(60*time.Millisecond, r.sample)
 	case "snapfallback":
 		// a server takes two snapshots a few entries apart (the log between them
 		// survives compaction), stops, and cannot read the newer one when it starts
